@@ -106,9 +106,13 @@ static std::string RunBoundedReads(R& inner, std::size_t limit, const std::vecto
       auto x = c.find('x');
       int w = std::stoi(c.substr(1, x - 1));
       std::size_t n = ParseInt<std::size_t>(c.substr(x + 1));
-      std::vector<std::uint8_t> buf(n * w ? n * w : 1);
-      auto st = b.Read(buf.data(), buf.data() + n * w);
-      out += st ? "0:" + Hex(buf.data(), n * w) : std::to_string(Code(st));
+      // elements of the requested width: the limit is in bytes, not in elements
+      switch (w) {
+        case 1: out += ReadElems<std::uint8_t>(b, n); break;
+        case 2: out += ReadElems<std::uint16_t>(b, n); break;
+        case 4: out += ReadElems<std::uint32_t>(b, n); break;
+        default: out += ReadElems<std::uint64_t>(b, n); break;
+      }
     } else if (c[0] == 'r') { std::uint8_t x = 0; auto st = b.Read(&x); out += st ? "0:" + Hex(&x, 1) : std::to_string(Code(st)); }
     else if (c[0] == 'E') out += std::to_string(Code(b.Ensure(ParseInt<std::size_t>(c.substr(1)))));
     else if (c[0] == 'S') out += std::to_string(Code(b.Skip(ParseInt<std::size_t>(c.substr(1)))));
